@@ -36,12 +36,15 @@ def make_case(seed, shard, i):
     r = random.Random(f"{seed}:C08:{shard}:{i}")
     n = r.choice([1, 2, 2, 3, 3, 4])
     members = []
+    headerless = r.random() < 0.2
     for j in range(n):
         g = lang.Gen(r, FEATURES)
-        prog = g.program(ncomp=r.randint(1, 4))
+        prog = g.program(ncomp=r.randint(1, 4), scan=r.choice(lang.HEADERLESS_SCANS) if headerless else None)
+        if headerless:
+            prog["comps"] = [lang.index_headers(c) for c in prog["comps"]]
         prog["comment"] = lang.random_mode_comment(r, 0.4, allow=("return-mode", "unmatched-mode", "validation-mode"))
         members.append(lang.tolist(prog))
-    rows = lang.data_rows(r)
+    rows = lang.data_rows(r, header_prob=0.0 if headerless else 0.85)
     if not any(len(x) for x in rows):
         rows.append(["1", "2", "x", "y"])
     return {"members": members, "rows": rows}
